@@ -139,7 +139,7 @@ def wl_C10(rng, w, cfg, index):
     cfg = dict(cfg)
     wts = dict(cfg.get('weights') or {})
     wts.update({'add_bad': 3.0, 'add_foreign': 0.8, 'attr_bad': 0.8, 'value_bad': 0.6, 'remove_foreign': 0.6, 'fwd': 1.0,
-                'remove_stale': 0.8, 'replace': 1.5, 'add_to_leaf': 0.5, 'replace_raw': 0.8, 'add_attached': 1.0, 'deep': 1.0,
+                'remove_stale': 0.8, 'replace': 1.5, 'add_to_leaf': 0.5, 'replace_raw': 0.8, 'add_attached': 1.0, 'deep': 1.0, 'remove_elsewhere': 0.8,
                 'to_string': 1.5, 'check': 0.6, 'to_string_ic': 0.0, 'check_ic': 0.0})
     cfg['weights'] = wts
     cfg['p_ic'] = 0.0
@@ -203,6 +203,12 @@ CANARY = [
 def wl_C13(rng, w, cfg, index):
     cfg = dict(cfg)
     cfg['p_ic'] = rng.choice([0.0, 0.3])
+    wts13 = dict(cfg.get('weights') or {})
+    wts13.update({'remove_elsewhere': 0.6, 'xsd_toggle': 0.4})
+    cfg['weights'] = wts13
+    cfg['cross_doc_faults'] = True
+    if rng.random() < 0.3:
+        cfg['root_checked'] = False     # documents created unchecked, possibly switched on later
     kit = Kit(rng, w, cfg)
     nact = rng.choice([2, 2, 3, 4])
     elems = gen.pick_elements(rng, nact, index)
@@ -274,7 +280,8 @@ def wl_C14(rng, w, cfg, index):
     cfg['p_attrs'] = rng.choice([0.3, 0.6])
     cfg['p_ic'] = 0.0
     wts = dict(cfg.get('weights') or {})
-    wts.update({'attr': 2.0, 'dot_value': 1.0, 'deep': 1.5, 'to_string_ic': 0.0, 'check_ic': 0.0, 'remove': 3.0, 'dot_none': 1.0})
+    wts.update({'attr': 2.0, 'dot_value': 1.0, 'deep': 1.5, 'to_string_ic': 0.0, 'check_ic': 0.0, 'remove': 3.0, 'dot_none': 1.0,
+                'attr_xml': 1.5, 'xsd_toggle': 0.3, 'attr_bad': 0.8, 'value_bad': 0.4, 'padded': 1.0})
     cfg['weights'] = wts
     cfg['p_final_serialise'] = 0.0
     kit = Kit(rng, w, cfg)
@@ -641,7 +648,7 @@ def wl_C15(rng, w, cfg, index):
                     # free text with irregular white space: whatever the verdict, both surfaces must agree and a
                     # read must return what was assigned
                     attrs[spec.py_attr_name(a)] = rng.choice([' a  b ', 'x\ty', 'Times  New Roman', ' lead', 'trail ', 'a\nb'])
-        base = {'name': elem, 'value': gen.default_value(elem), 'xsd_check': True}
+        base = {'name': elem, 'value': gen.default_value(elem), 'xsd_check': rng.random() >= 0.15}
         # attributes: constructor keywords on A; dot assignment on B
         yield {'op': 'PAIR', 'step': 'create+attributes', 'first': 'explicit',
                'explicit': [{'op': 'NEW', 'a': 0, 'doc': 'dA', 'c': dict(base, attrs=dict(attrs))}],
@@ -669,6 +676,12 @@ def wl_C15(rng, w, cfg, index):
                     cs = {'name': x, 'value': gx[-1], 'attrs': {}, 'xsd_check': True}
                     yield {'op': 'PAIR', 'step': 'add-another:' + x, 'first': 'explicit',
                            'explicit': [{'op': 'ADD', 'a': 0, 'p': ['dA'], 'c': cs}], 'shortcut': [{'op': 'ADD', 'a': 1, 'p': ['dB'], 'c': cs}]}
+                    if sum(1 for c in B.children if c.name == x) > 1 and rng.random() < 0.5:
+                        cs = {'name': x, 'value': gx[0], 'attrs': {}, 'xsd_check': True}
+                        yield {'op': 'PAIR', 'step': 'set-child-element-dup:' + x, 'first': 'explicit',
+                               'explicit': [{'op': 'DOT_SET', 'a': 0, 'p': ['dA'], 'name': x, 'v': {'kind': 'element', 'c': cs}}],
+                               'shortcut': [{'op': 'DOT_SET', 'a': 1, 'p': ['dB'], 'name': x, 'v': {'kind': 'element', 'c': cs}}]}
+                        yield {'op': 'TO_STRING', 'a': 1, 'p': ['dB'], 'ic': False, 'c15order': x}
                     if sum(1 for c in B.children if c.name == x) > 1:
                         v2 = gx[0]
                         yield {'op': 'DOT_SET', 'a': 1, 'p': ['dB'], 'name': x, 'v': {'kind': 'value', 'value': v2}}
@@ -1082,7 +1095,17 @@ def wl_C09(rng, w, cfg, index):
                 return
             text = docgen.to_xml(tree, style=rng.randrange(3))
             enc = 'utf-8'
+            if rng.random() < 0.25:
+                # other encodings a foreign tool may declare (the declaration is rewritten to match the bytes)
+                enc = rng.choice(['utf-16', 'iso-8859-1', 'windows-1252', 'iso-8859-2', 'utf-8-sig'])
+                decl = 'UTF-8' if enc == 'utf-8-sig' else enc.upper()
+                text = text.replace('encoding="UTF-8"', 'encoding="%s"' % decl, 1)
+                try:
+                    text.encode(enc)
+                except UnicodeEncodeError:
+                    text = text.encode(enc, 'xmlcharrefreplace').decode(enc)
             yield {'op': 'FSPUT', 'path': 'f.xml', 'hex': text.encode(enc).hex()}
+            w.count('c09.foreign_encoding.' + enc)
             valid = True
         w.count('c09.documents.' + writer.split()[0])
         if rng.random() < 0.2:
@@ -1129,6 +1152,10 @@ def wl_C20(rng, w, cfg, index):
                 nums = [x for x in g if isinstance(x, float)] or g
                 if nums:
                     yield {'op': 'ATTR_SET', 'a': 0, 'p': [doc], 'name': spec.py_attr_name(a), 'value': rng.choice(nums)}
+        if rng.random() < 0.6:
+            # misuse is part of the programs too: an unknown attribute name by dot assignment / read / constructor
+            yield {'op': 'ATTR_SET', 'a': 0, 'p': [doc], 'name': 'bogus', 'value': 1}
+            yield {'op': 'ATTR_GET', 'a': 0, 'p': [doc], 'name': 'bogus'}
         # validate while (probably) incomplete: the refusal is part of the expected result
         yield {'op': 'TO_STRING', 'a': 0, 'p': [doc], 'ic': False}
         req = [a for a, d in spec.attributes_of_element(elem).items() if d['required'] and a in root.attrs and gen._attr_usable(a)]
@@ -1151,7 +1178,7 @@ def wl_C19(rng, w, cfg, index):
     cfg = dict(cfg)
     wts = dict(cfg.get('weights') or {})
     wts.update({'weird': 1.5, 'add_to_leaf': 0.8, 'add_bad': 2.5, 'add_foreign': 0.8, 'attr_bad': 0.8, 'value_bad': 0.6,
-                'remove_stale': 0.5, 'readd': 0.8})
+                'remove_stale': 0.5, 'readd': 0.8, 'remove_elsewhere': 0.5})
     for k in ('add_bad', 'add_foreign', 'attr_bad', 'value_bad', 'weird'):
         wts[k] = max(wts.get(k, 0), 0.6)
     cfg['weights'] = wts
@@ -1261,6 +1288,8 @@ def wl_C20probe(rng, w, cfg, index):
                 yield {'op': 'ATTR_SET', 'a': 0, 'p': [doc], 'name': spec.py_attr_name(a), 'value': v}
             if b and rng.random() < 0.3:
                 yield {'op': 'ATTR_SET', 'a': 0, 'p': [doc], 'name': spec.py_attr_name(a), 'value': rng.choice(b)}
+            if rng.random() < 0.3:
+                yield {'op': 'ATTR_SET', 'a': 0, 'p': [doc], 'name': 'bogus', 'value': 'x'}
             m = spec.model_for_element(n)
             if m is not None:
                 for x in (m.missing([]) or [])[:4]:
